@@ -98,7 +98,7 @@ chk(
 chk(
     "C18",
     "translation_validation",
-    "Generated linalg.generic bodies over addi/muli/subi/extsi (exhaustive boxes of small wirings, canonical kernel bodies, near misses, random) are pushed through the real convert-linalg-to-kernel and executed before and after by a fixed-width scalar evaluator on corner-product plus 200 random vectors; kernel-bodied generics (mul/add/mac/qmac, kernel.rescale parameter sets) go through the real convert-kernel-to-linalg and the expanded body is compared with the kernel's documented meaning; after the real insert-accfg-op/dispatch-kernels every library_call set by the pass is checked against the supported_kernels of the named accelerator (kernel type and exact operand/result types). Holds on the executions observed apart from attributed known findings; sampled, exhaustive only for the stated boxes.",
+    "Generated linalg.generic bodies over addi/muli/subi/extsi (exhaustive boxes of small wirings, canonical kernel bodies, near misses, random) are pushed through the real convert-linalg-to-kernel and executed before and after by a fixed-width scalar evaluator on corner-product plus 200 random vectors; kernel-bodied generics (mul/add/mac/qmac, kernel.rescale parameter sets) go through the real convert-kernel-to-linalg and the expanded body is compared with the kernel's documented meaning; after the real insert-accfg-op/dispatch-kernels every library_call set by the pass is checked against the supported_kernels of the named accelerator (kernel type and exact operand/result types); tosa.rescale [+ tosa.clamp] with generated parameters goes through the real convert-tosa-to-kernel and the parameters of the resulting kernel.rescale are compared with those of the tosa ops. Holds on the executions observed apart from attributed known findings; sampled, exhaustive only for the stated boxes.",
     TB + "scalar evaluator vf/interp/scalar.py (kernel ops by documented meaning; kernel.rescale per util/gemmx/simd_golden_model.py because the linked gist is unreachable; 32-bit-overflow inputs out of domain). Expansion judged only for type combinations with a well-typed canonical body; verifier failures after a pass are rejections; convert-tosa-to-kernel not reached under xDSL 0.70. Known findings attributed by structural predicate + counterfactual (vf/counterfactual/kernel_cf.py).",
     "runtime monitoring: before/after execution of real pass output on a scalar machine (differential evaluation on extreme and random inputs), declaration check on dispatch results",
     "DESIGN.md section 3 C18",
